@@ -273,3 +273,27 @@ def run_seeded(prop, mod, res):
     res.seeded = out
     res.notes['seeded_changes_replayed'] = out
     return n
+
+
+def run_benign(prop, mod, res):
+    """Self-test in the other direction: behaviour-preserving variants of the whole package (every local renamed, commutative
+    operands swapped, `a == b` turned round, a no-op statement inserted in every function) are built in memory and the
+    property's rules must stay silent on them.  Recorded in the evidence; a non-zero count is a defect of the checker
+    (reported as a note, never as a verdict about photutils)."""
+    import importlib.util
+    spec = importlib.util.spec_from_file_location('verif_benign', os.path.join(VERIF, 'tools', 'benign.py'))
+    B = importlib.util.module_from_spec(spec)
+    spec.loader.exec_module(B)
+    clean_rf = {(f.rule, f.func) for f in res.findings}
+    out = {}
+    for variant in ('rename', 'swap', 'yoda', 'shift'):
+        try:
+            res2 = mod.run(B.build(variant), 'quick')
+            new = sorted({(f.rule, f.func) for f in res2.findings} - clean_rf)
+            out[variant] = {'false_alarms': len(new), 'first': [f'{r} {fn}' for r, fn in new[:3]]}
+        except AnalysisError as exc:
+            out[variant] = {'false_alarms': 1, 'first': [f'ANALYSIS-ERROR {str(exc)[:120]}']}
+        res.oblige('BENIGN', f'silent on the behaviour-preserving variant `{variant}` of the package', out[variant]['false_alarms'] == 0,
+                   nontrivial=True)
+    res.notes['benign_variants'] = out
+    return out
